@@ -46,7 +46,8 @@ Definition mon_item (a : acc) (it : item) : option acc :=
            | None => Some (mkacc true (a_hc a) (a_fired a) (a_local a) (a_sc a) None)
            end
   | ISent SData => if a_sent a then None else Some a          (* no data frame after our Close *)
-  | ISent _ => Some a
+  | ISent SPing => if a_sent a then None else Some a          (* nor a ping *)
+  | ISent SPong => Some a
   | IHandled (FClose p) =>
       match a_hc a with
       | Some _ => Some a
@@ -75,19 +76,41 @@ Fixpoint mon_items (a : acc) (l : list item) : option acc :=
 Definition is_wok (i : item) := match i with IWriteOk => true | _ => false end.
 Definition is_werr (i : item) := match i with IWriteErr => true | _ => false end.
 Definition is_data (i : item) := match i with ISent SData => true | _ => false end.
+Definition is_pok (i : item) := match i with IPingOk => true | _ => false end.
+Definition is_perr (i : item) := match i with IPingErr => true | _ => false end.
+Definition is_cerr (i : item) := match i with ICloseErr => true | _ => false end.
 Definition cnt (f : item -> bool) (l : list item) : nat := length (filter f l).
+(* how often each application-call outcome / data frame occurs in a step *)
+Definition counts (l : list item) : list nat :=
+  [cnt is_wok l; cnt is_werr l; cnt is_data l; cnt is_pok l; cnt is_perr l; cnt is_cerr l].
+Definition zeros : list nat := [0; 0; 0; 0; 0; 0]%nat.
 
 (* "closing", as the application can know it *)
 Definition closing (a : acc) : bool := a_sent a || is_some (a_hc a) || a_sc a || a_local a.
 
 (* a coroutine of the application (on_message, or open()) is pending: the receive loop cannot run *)
 Definition is_blocked (t : ltag) := match t with TBlocked | TOpening => true | _ => false end.
-Definition is_close_ev (e : event) := match e with ELocalClose _ _ => true | _ => false end.
+(* the application closed: close() was called with arguments a Close frame can be built from *)
+Definition is_close_ev (e : event) :=
+  match e with ELocalClose c r => close_args_ok c r | _ => false end.
 
 Definition note_event (e : event) (a : acc) : acc :=
   mkacc (a_sent a) (a_hc a) (a_fired a) (a_local a || is_close_ev e) (a_sc a) (a_echo a).
 Definition note_sc (b : bool) (a : acc) : acc :=
   mkacc (a_sent a) (a_hc a) (a_fired a) (a_local a) b (a_echo a).
+
+(* what the application calls of this event must produce, given whether we were closing before it:
+   write_message / ping() raise WebSocketClosedError exactly when closing (and then put nothing on
+   the wire); close() raises exactly when it would have to build a Close frame from unencodable
+   arguments; nothing else writes data frames *)
+Definition expected_b (e : event) (cl : bool) : list nat :=
+  match e with
+  | EWrite => if cl then [0; 1; 0; 0; 0; 0]%nat else [1; 0; 1; 0; 0; 0]%nat
+  | EAppPing => if cl then [0; 0; 0; 0; 1; 0]%nat else [0; 0; 0; 1; 0; 0]%nat
+  | ELocalClose c r => if negb cl && negb (close_args_ok c r) then [0; 0; 0; 0; 0; 1]%nat else zeros
+  | _ => zeros
+  end.
+Definition expected (e : event) (a : acc) : list nat := expected_b e (closing a).
 
 Definition mon_step (a : acc) (e : event) (o : list item * snap) : option acc :=
   let '(its, n) := o in
@@ -99,14 +122,7 @@ Definition mon_step (a : acc) (e : event) (o : list item * snap) : option acc :=
       let ok_timer := match e with ETick => implb (a_sent a) (n_sc n) | _ => true end in  (* closing timeout *)
       let ok_fired := implb (n_sc n && negb (is_blocked (n_loop n))) (a_fired a1) in      (* reported once down *)
       let ok_mono := implb (a_sc a) (n_sc n) in
-      let ok_write :=
-        match e with
-        | EWrite =>
-            if closing a                                                  (* closing before this call *)
-            then (Nat.eqb (cnt is_wok its) 0 && Nat.eqb (cnt is_werr its) 1 && Nat.eqb (cnt is_data its) 0)%bool
-            else (Nat.eqb (cnt is_wok its) 1 && Nat.eqb (cnt is_werr its) 0 && Nat.eqb (cnt is_data its) 1)%bool
-        | _ => (Nat.eqb (cnt is_wok its) 0 && Nat.eqb (cnt is_werr its) 0 && Nat.eqb (cnt is_data its) 0)%bool
-        end in
+      let ok_write := list_eqb Nat.eqb (counts its) (expected e a) in
       if ok_echo && ok_both && ok_timer && ok_fired && ok_mono && ok_write
       then Some (note_sc (n_sc n) a1)
       else None
@@ -123,6 +139,7 @@ Definition check_trace (evs : list event) (t : trace) : bool := is_some (mon_run
 
 (* ---------- vocabulary for the Prop-level statements ---------- *)
 Definition is_sclose (i : item) := match i with ISent (SClose _ _) => true | _ => false end.
+Definition is_sping (i : item) := match i with ISent SPing => true | _ => false end.
 Definition is_hclose (i : item) := match i with IHandled (FClose _) => true | _ => false end.
 Definition is_onclose (i : item) := match i with IOnClose _ _ => true | _ => false end.
 Definition items_of (t : trace) : list item := concat (map fst t).
